@@ -40,6 +40,19 @@ func CmdCheck(cfg RunConfig) int {
 	}
 	dir := filepath.Join(os.TempDir(), fmt.Sprintf("govc-smt-%d", os.Getpid()), cfg.Prop)
 	defer os.RemoveAll(filepath.Dir(dir))
+	// obligations marked slow are decided in the thorough tier only (never counted in quick)
+	var slowSkipped []string
+	if cfg.Tier != "thorough" {
+		var keep []*Obligation
+		for _, o := range res.Obls {
+			if o.Slow {
+				slowSkipped = append(slowSkipped, o.Name)
+				continue
+			}
+			keep = append(keep, o)
+		}
+		res.Obls = keep
+	}
 	ssec := SolveAll(res.Obls, dir, to)
 	lock := ReadLock(lockPath(cfg))
 	findings := ReadFindings(filepath.Join(cfg.VerifDir, "known-findings.txt"))
@@ -110,8 +123,12 @@ func CmdCheck(cfg RunConfig) int {
 	}
 	// obligations that disappeared
 	var missing []string
+	skipped := map[string]bool{}
+	for _, n := range slowSkipped {
+		skipped[n] = true
+	}
 	for name, ls := range lock {
-		if _, ok := byName[name]; !ok {
+		if _, ok := byName[name]; !ok && !skipped[name] {
 			missing = append(missing, name)
 			_ = ls
 		}
@@ -154,6 +171,7 @@ func CmdCheck(cfg RunConfig) int {
 	}
 	// evidence
 	ev := buildEvidence(cfg, pr, res, per, nObl, nDis, len(violations), knownLines, unlocked, lsec, ssec, nowSec(t0))
+	ev["coverage"].(map[string]interface{})["slow_obligations_thorough_only_not_run_in_this_tier"] = slowSkipped
 	if err := writeJSON(evPath, ev); err != nil {
 		fmt.Fprintln(os.Stderr, "evidence:", err)
 	}
